@@ -15,7 +15,7 @@ RULE = ("convex solids from gen.convex_solid (C01 generator: all kinds, rigid mo
         "simplicial hulls) for the vertex-based balls; polygons from gen.polygon2d (C04 generator) + regular n-gons, "
         "rectangles, squares, kites, rhombi, isosceles trapezoids, cyclic and tangential random polygons, triangles, "
         "embedded in random planes, scaled 1e-3..1e3, both orientations / explicit / opposing normal; circles, ellipses, "
-        "spheres, ellipsoids with log-uniform semi-axes incl. ties; forced miniball failures (0,1,2,3,9,10 LinAlgErrors); "
+        "spheres, ellipsoids with log-uniform semi-axes incl. ties; forced miniball failures (0,1,2,3,49,50 LinAlgErrors; max_attempts = 50); "
         "seed sweeps: cospherical vertex sets (prisms, boxes, antiprisms, Platonic/Archimedean solids, regular / cyclic "
         "polygons, rectangles; NEARLY tangential rectangles / kites / boxes / prisms (relative defect eps in 1e-6..1e-1) at 0, 1, "
         "10 diameters from the origin, rotated, all orientations (thorough also 1e2..1e4 diameters as a stress class outside "
@@ -43,6 +43,7 @@ ASSUMPTIONS = [
     "signed_area (C04) and the face normals / equations (C07) are inputs of the model",
 ]
 
+MAX_ATTEMPTS = 50  # `max_attempts` of the two getters (500eda1; 10 before)
 MB_REL = 1e-6      # relative tolerance of everything derived from miniball
 RHO_LO = 1e-9      # relative misfit below which a circum-/in-ball clearly exists
 RHO_HI = 1e-3      # ... above which it clearly does not (code threshold 1e-4, see notes/C13.md)
@@ -686,24 +687,27 @@ def check_minimal_bounding(ctx, case, cls, attr, p, verts, Ls, d, fail_first, se
     # ---- C
     natural_fail = n_fail - min(fail_first, len(rec.mb))
     if impl[0] == "exc":
-        if impl[1] == "RuntimeError" and len(rec.mb) >= 10:
-            if fail_first == 0:
-                # every attempt failed on its own (LinAlgError inside miniball, or an answer rejected by the acceptance
-                # test): a VALID shape has a minimal bounding ball, the getter gives up instead of returning it
-                n_rej = sum(1 for ok, _, _ in rec.mb if ok)
-                ctx.count("miniball:gave-up-on-valid-shape")
-                ctx.fail(sig0 + ":raises-for-valid-shape",
-                         "RuntimeError although the shape is valid: all 10 attempts failed (%d LinAlgError in miniball, %d "
-                         "answers rejected)" % (n_fail, n_rej), case, [impl[2], n_fail, n_rej])
-            elif fail_first < 10:
-                ctx.contract_failures.append({"contract": "miniball succeeds within 10 attempts", "where": sig0,
-                                              "natural_failures": natural_fail})
+        if impl[1] == "RuntimeError" and fail_first == 0:
+            # no failure was forced: every attempt failed on its own (LinAlgError inside miniball, or an answer rejected by
+            # the acceptance test). A VALID shape has a minimal bounding ball; giving up is a violation (500eda1)
+            n_rej = sum(1 for ok, _, _ in rec.mb if ok)
+            ctx.count("miniball:gave-up-on-valid-shape")
+            ctx.fail(sig0 + ":raises-for-valid-shape",
+                     "RuntimeError although the shape is valid: all %d attempts failed (%d LinAlgError in miniball, %d "
+                     "answers rejected)" % (len(rec.mb), n_fail, n_rej), case, [impl[2], n_fail, n_rej])
             return
-        ctx.fail(sig0 + ":raises:%d-failed-attempts" % min(n_fail, 10),
-                 "raised %s although an attempt succeeded" % impl[1], case, [impl[2], n_fail])
+        last_good = bool(rec.mb) and rec.mb[-1][0] and answer_looks_right(rec.mb[-1][1], *rec.mb[-1][2])
+        if impl[1] == "RuntimeError" and len(rec.mb) >= MAX_ATTEMPTS and not last_good:
+            if fail_first < MAX_ATTEMPTS:
+                ctx.contract_failures.append({"contract": "miniball succeeds within %d attempts" % MAX_ATTEMPTS,
+                                              "where": sig0, "natural_failures": natural_fail})
+            return
+        ctx.fail(sig0 + ":raises:%s-failed-attempts" % ("all-but-last" if n_fail >= MAX_ATTEMPTS - 1 else str(n_fail)),
+                 "raised %s although an attempt succeeded" % impl[1], case, [impl[2], n_fail, len(rec.mb)])
         return
-    if fail_first >= 10:
-        ctx.fail(sig0 + ":no-raise-after-10-failures", "returned a ball although all 10 attempts failed", case, impl[:2])
+    if fail_first >= MAX_ATTEMPTS:
+        ctx.fail(sig0 + ":no-raise-after-all-attempts-failed", "returned a ball although all %d attempts failed" % MAX_ATTEMPTS,
+                 case, impl[:2])
         return
     if not good:
         return
@@ -769,6 +773,20 @@ def check_acceptance(ctx, case, sig0, S, res, calls, accepted):
                                           "residual": resid, "exact |a w - b|": float(np.sqrt(max(exact, 0.0))),
                                           "min weight": float(np.min(w)) if len(w) else None})
     return False
+
+
+def answer_looks_right(S, c, r2):
+    """independent float test of a miniball answer: contains its points and has a support certificate (own NNLS)."""
+    if not (np.isfinite(r2) and r2 > 0 and np.all(np.isfinite(c))):
+        return False
+    d2 = np.sum((S - c) ** 2, axis=1)
+    if float(np.max(d2)) > r2 * (1 + 1e-8):
+        return False
+    sup = support_weights(S, c, r2)
+    if not sup:
+        return False
+    w = np.array([t[0] for t in sup]); P = np.array([t[1:] for t in sup])
+    return bool(abs(w.sum() - 1) <= 1e-6 and np.linalg.norm(w @ (P - c)) <= 1e-6 * np.sqrt(r2))
 
 
 def judge_minimal_ball(ctx, case, sig0, verts, r, c, rec, n_fail):
@@ -1577,7 +1595,7 @@ def witnesses():
          "info": {"kind": "witness:small-box-insphere"}, "seed": 8},
         {"family": "polyhedron", "vertices": (1e3 * np.array(cube)).tolist(), "info": {"kind": "witness:large-cube"}, "seed": 9},
     ]
-    for k in (1, 2, 3, 9, 10):
+    for k in (1, 2, 3, MAX_ATTEMPTS - 1, MAX_ATTEMPTS):
         out.append({"family": "polyhedron", "vertices": cube_off, "fail_first": k,
                     "info": {"kind": "witness:forced-%d-failures" % k}, "seed": 20 + k})
         out.append({"family": "polygon", "vertices": sq_off, "normal": None, "cls": "Polygon", "fail_first": k,
@@ -1599,9 +1617,10 @@ def witnesses():
     out.append({"family": "polyhedron", "vertices": PRISM3_ROT,
                 "faces": [[0, 2, 1], [3, 4, 5], [0, 3, 5, 2], [1, 2, 5, 4], [0, 1, 4, 3]],
                 "info": {"kind": "witness:miniball-unverified-prism-general-class"}, "seed": 14})
-    # KNOWN FINDING (not repaired): retry exhaustion on valid shapes. On cospherical sets with many vertices miniball raises
-    # LinAlgError on roughly every second attempt whatever the rotation, so 10 attempts are not enough about once in 1e3
-    # calls; deterministic witnesses: the uniform 41-gon prism (82 vertices) and the regular 41-gon, with the seeds below
+    # repaired in 500eda1 (max_attempts 10 -> 50; must be caught if it returns): retry exhaustion on valid shapes. On
+    # cospherical sets with many vertices miniball raises LinAlgError on roughly every second attempt whatever the rotation,
+    # so 10 attempts were not enough about once in 1e3 calls; deterministic witnesses: the uniform 41-gon prism (82 vertices)
+    # and the regular 41-gon with the seeds below — they must now return the minimal ball
     try:
         from coxeter.families import RegularNGonFamily, UniformPrismFamily
         pr = UniformPrismFamily.get_shape(n=41)
@@ -1658,7 +1677,7 @@ def run(ctx):
                 continue
             # a few generated cases also get forced miniball failures
             if rng.random() < 0.15:
-                c["fail_first"] = int(rng.choice([1, 2, 3, 9]))
+                c["fail_first"] = int(rng.choice([1, 2, 3, MAX_ATTEMPTS - 1]))
             cases.append(c)
     tabs = gen.tabulated_solids()
     if ctx.tier == "quick" and ctx.widen == 1:
